@@ -43,8 +43,19 @@ def tun_frets(t, n, maxfret):
     return mk_tuning(t).find_frets(note_of(n), maxfret)
 
 def tun_note(t, string, fret, maxfret):
-    n = mk_tuning(t).get_Note(string, fret, maxfret)
-    return [n.name, n.octave]
+    tun = mk_tuning(t)
+    n = tun.get_Note(string, fret, maxfret)
+    out = [n.name, n.octave]
+    # a caller that keeps working with the note it was handed: the tuning must not notice
+    n.transpose("3"); n.octave += 1
+    again = tun.get_Note(string, fret, maxfret)
+    if [again.name, again.octave] != out or tun.find_frets(mk_plain_note(out)) != mk_tuning(t).find_frets(mk_plain_note(out)):
+        raise AssertionError("the tuning changed after the caller transposed a note that get_Note returned")
+    return out
+
+def mk_plain_note(no):
+    from mingus.containers import Note
+    return Note(no[0], no[1])
 
 def tun_fingering(t, notes, max_distance):
     # the same notes in one of the argument forms the function accepts, chosen by the input itself: Note objects, note
